@@ -407,3 +407,6 @@ W('C14-W-parsed-link-no-replace-ids', 'C14', 'C14.g', (PARSE_PY, "    def replac
 
 # F41 (boolean-mask views of indexed datasets) must be reported again if it returns
 W('C04-W-indexed-mask-view-not-translated', 'C04', 'C04.g', (DERIVED_PY, "        elif isinstance(view, np.ndarray) and view.dtype == bool:\n            # a boolean mask selects the same elements as its index arrays\n            view = np.nonzero(view)\n", ""))
+
+# F42 (a polygon rotated by half a turn kept its vertices) must be reported again if it returns
+W('C08-W-polygon-half-turn-skipped', 'C08', 'C08.k', (ROIPY, "not np.isclose(dtheta % (2 * np.pi), 0.0, atol=1e-9)", "not np.isclose(dtheta % np.pi, 0.0, atol=1e-9)"))
